@@ -240,6 +240,8 @@ func prodTemplates() []prodTemplate {
 		{"alias-group", []kit.Reg{{Outs: []kit.Out{{T: "D2"}}, As: []string{"IA"}, Group: "g"}, {Outs: []kit.Out{{T: "D3"}}, As: []string{"IA"}, Group: "g"}}},
 		{"instance", []kit.Reg{{Kind: "instance", Outs: []kit.Out{{T: "P0"}}}}},
 		{"instance-named", []kit.Reg{{Kind: "instance", Outs: []kit.Out{{T: "P1"}}, Name: "k1"}}},
+		{"instance2-named", []kit.Reg{{Kind: "instance", Outs: []kit.Out{{T: "P1"}}, Name: "k1"}, {Kind: "instance", Outs: []kit.Out{{T: "P1"}}, Name: "k2"}, {Kind: "instance", Outs: []kit.Out{{T: "P1"}}}}},
+		{"instance2-group", []kit.Reg{{Kind: "instance", Outs: []kit.Out{{T: "D0"}}, Group: "g"}, {Kind: "instance", Outs: []kit.Out{{T: "D0"}}, Group: "g"}, {Kind: "instance", Outs: []kit.Out{{T: "D0"}}, Group: "h"}}},
 		{"instance-group", []kit.Reg{{Kind: "instance", Outs: []kit.Out{{T: "D0"}}, Group: "g"}, {Outs: []kit.Out{{T: "D0"}}, Group: "g"}}},
 		{"err-return", []kit.Reg{{Outs: []kit.Out{{T: "D3"}}, Err: true}}},
 	}
